@@ -47,6 +47,9 @@ def main():
         except Exception as e:
             res['ok'] = False
             res['exc'] = ''.join(traceback.format_exception(type(e), e, e.__traceback__))[-3000:]
+            tb = traceback.extract_tb(e.__traceback__)
+            # an exception raised by harness code itself (last frame under vfw/) is a harness error, not a property violation
+            res['exc_in_harness'] = bool(tb) and (os.sep + 'vfw' + os.sep) in tb[-1].filename
         res['rec'] = hs.LOG[-1] if hs.LOG else None
     except BaseException as e:
         res['error'] = ''.join(traceback.format_exception(type(e), e, e.__traceback__))[-3000:]
